@@ -178,6 +178,7 @@ pub fn gen_random(seed: u64, idx: u64) -> Plan {
             c.kind = ConnKind::Tls;
         }
         fit_c2s(&mut c);
+        fit_s2c_echo(&mut c);
         conns.push(c);
     }
     Plan {
